@@ -1082,6 +1082,11 @@ def check_c07(res, ctx):
         o = gen.robj(r, big=r.random() < 0.03)
         lines.append("va %d %s" % (r.choice([0, 1, 2, 2, 3]), o.script()))
 
+    for ln in ([16383, 16384, 2097151, 2097152, 2097160] if ctx.tier == "quick" else
+               [16383, 16384, 2097151, 2097152, 2097160, 16777216, 33554432]):
+        big = gen.rbytes(r, 64) * (ln // 64) + gen.rbytes(r, ln % 64)
+        lines.append("cap=100000000 va 1 %d 3 61 %s 62" % (r.choice([10, 12]), big.hex()))
+
     def oracle_va(l, h):
         m = re.search(r" rd=0@(\d+):.* sk=(-?\d+)(?:@(\d+))? len=(\d+)", h)
         if not m:
